@@ -52,10 +52,15 @@ def cheb_nodal(coeffs_axis_len, x, kind):
     return M
 
 
-def make_solver(h, M, N, T0, basisM, basisN, nparticles):
+def make_solver(h, M, N, T0, basisM, basisN, nparticles, rescale=False):
     h.patch_numeric(BZ)
     h.patch_numeric(PM)
-    grid = Grid(M, N, 1.3, T0)
+    if rescale:
+        # history: the grid was built with another momentum scale and rescaled through the public API
+        grid = Grid(M, N, 1.3, 2.7 * T0)
+        grid.changeMomentumFalloffScale(T0)
+    else:
+        grid = Grid(M, N, 1.3, T0)
     bs = BZ.BoltzmannSolver.__new__(BZ.BoltzmannSolver)
     bs.grid = grid
     bs.basisM, bs.basisN = basisM, basisN
@@ -75,8 +80,8 @@ def make_solver(h, M, N, T0, basisM, basisN, nparticles):
     return bs, grid, prof
 
 
-def h_deltas(h, M, N, T0, basisM, basisN, nparticles):
-    bs, grid, prof = make_solver(h, M, N, T0, basisM, basisN, nparticles)
+def h_deltas(h, M, N, T0, basisM, basisN, nparticles, rescale=False):
+    bs, grid, prof = make_solver(h, M, N, T0, basisM, basisN, nparticles, rescale)
     shape = (nparticles, M - 1, N - 1, N - 1)
     dF = h.reals("df", shape, -1, 1, strict=False)
     res = bs.getDeltas(dF.copy())
@@ -180,6 +185,7 @@ _DQ = [dict(M=3, N=3, T0=1.0, basisM="Cardinal", basisN="Cardinal", nparticles=1
        dict(M=4, N=5, T0=0.37, basisM="Cardinal", basisN="Chebyshev", nparticles=1),
        dict(M=3, N=5, T0=25.0, basisM="Chebyshev", basisN="Cardinal", nparticles=2),
        dict(M=3, N=3, T0=1.0, basisM="Chebyshev", basisN="Chebyshev", nparticles=2)]
+_DQ.append(dict(M=3, N=3, T0=0.6, basisM="Cardinal", basisN="Cardinal", nparticles=1, rescale=True))
 _DT = _DQ + [dict(M=4, N=7, T0=1.0, basisM=bm, basisN=bn, nparticles=1)
              for bm in ("Cardinal", "Chebyshev") for bn in ("Cardinal", "Chebyshev")] + \
     [dict(M=5, N=5, T0=3.0, basisM="Chebyshev", basisN="Chebyshev", nparticles=2)]
